@@ -96,6 +96,9 @@ pub fn fill_common(rep: &mut CaseReport, res: &SessionResult, world: &World) {
     rep.count("broker.confirms", b.confirms);
     rep.count("broker.mux_interleaves", b.mux_interleaves);
     rep.count("broker.scripted_actions", b.scripted_actions);
+    // frames on channels whose close handshake was complete (a real broker answers 504): counted here,
+    // judged by the scenarios whose property speaks about it (C09)
+    rep.count("probe.frames_on_closed_channel", world.broker.client_violations.len() as u64);
     match &res.run.outcome {
         Outcome::Finished => {}
         Outcome::StepCap => rep.inconclusive = Some("step cap".to_string()),
